@@ -16,17 +16,38 @@ pub trait Dec: ScancodeSet + Clone + PartialEq + std::fmt::Debug + Default + Sen
     /// maximum number of consecutive "no event yet" results the property allows
     const MAX_NONE_RUN: usize;
 }
+/// Which constructor `fresh()` uses: 0 = `new()`, k = the k-th further constructor the tree offers (build.rs).
+pub static CTOR_SET1: std::sync::atomic::AtomicUsize = std::sync::atomic::AtomicUsize::new(0);
+pub static CTOR_SET2: std::sync::atomic::AtomicUsize = std::sync::atomic::AtomicUsize::new(0);
+pub static CTOR_PS2: std::sync::atomic::AtomicUsize = std::sync::atomic::AtomicUsize::new(0);
+/// true while a monitor is being repeated from a further constructor (checks that speak about `new()` itself are skipped then)
+pub fn ctor_overridden() -> bool {
+    use std::sync::atomic::Ordering::Relaxed;
+    CTOR_SET1.load(Relaxed) != 0 || CTOR_SET2.load(Relaxed) != 0 || CTOR_PS2.load(Relaxed) != 0
+}
+pub fn fresh_ps2() -> pc_keyboard::Ps2Decoder {
+    match CTOR_PS2.load(std::sync::atomic::Ordering::Relaxed) {
+        0 => pc_keyboard::Ps2Decoder::new(),
+        k => (crate::layouts::extra_ctors_ps2()[k - 1].1)(),
+    }
+}
 impl Dec for ScancodeSet1 {
     const SET: u8 = 1;
     fn fresh() -> Self {
-        ScancodeSet1::new()
+        match CTOR_SET1.load(std::sync::atomic::Ordering::Relaxed) {
+            0 => ScancodeSet1::new(),
+            k => (crate::layouts::extra_ctors_set1()[k - 1].1)(),
+        }
     }
     const MAX_NONE_RUN: usize = 1;
 }
 impl Dec for ScancodeSet2 {
     const SET: u8 = 2;
     fn fresh() -> Self {
-        ScancodeSet2::new()
+        match CTOR_SET2.load(std::sync::atomic::Ordering::Relaxed) {
+            0 => ScancodeSet2::new(),
+            k => (crate::layouts::extra_ctors_set2()[k - 1].1)(),
+        }
     }
     const MAX_NONE_RUN: usize = 2;
 }
